@@ -1069,4 +1069,50 @@ theorem stepSelectPure_cases (p : Proc V) (now : Nat) (srcs : List (Source V)) :
         intro st' h; simp only [Option.some.injEq] at h; subst h; exact verdictOf_of_pending _ _ hp
 
 
+theorem amLookup_remove_self {α} (k : Nat) (m : AMap α) : amLookup k (amRemove k m) = none := by
+  induction m with
+  | nil => rfl
+  | cons e rest ih =>
+    obtain ⟨a, b⟩ := e
+    by_cases h : a = k
+    · simp [amRemove, h] at ih ⊢; exact ih
+    · have hne : (a != k) = true := by simp [h]
+      simp only [amRemove, List.filter_cons, hne, if_true, amLookup, h, if_false] at ih ⊢; exact ih
+
+theorem amLookup_remove_none {α} (k k' : Nat) (m : AMap α) (h : amLookup k m = none) :
+    amLookup k (amRemove k' m) = none := by
+  by_cases hk : k = k'
+  · subst hk; exact amLookup_remove_self k m
+  · rw [amRemove, amLookup_filter_ne k' k m hk]; exact h
+
+theorem amLookup_dropAwaits_none {α} : ∀ (srcs : List (Source V)) (m : AMap α) (t : Nat),
+    amLookup t m = none → amLookup t (dropAwaits srcs m) = none := by
+  intro srcs
+  induction srcs with
+  | nil => intro m t h; exact h
+  | cons s rest ih =>
+    intro m t h
+    cases s with
+    | await t' => exact ih _ t (amLookup_remove_none t t' m h)
+    | receive _ _ => exact ih m t h
+    | timeout _ => exact ih m t h
+    | invalid _ => exact ih m t h
+
+theorem amLookup_dropAwaits_mem {α} : ∀ (srcs : List (Source V)) (m : AMap α) (t : Nat),
+    Source.await t ∈ srcs → amLookup t (dropAwaits srcs m) = none := by
+  intro srcs
+  induction srcs with
+  | nil => intro m t h; simp at h
+  | cons s rest ih =>
+    intro m t h
+    rcases List.mem_cons.mp h with h' | h'
+    · subst h'
+      exact amLookup_dropAwaits_none rest _ t (amLookup_remove_self t m)
+    · cases s with
+      | await t' => exact ih _ t h'
+      | receive _ _ => exact ih m t h'
+      | timeout _ => exact ih m t h'
+      | invalid _ => exact ih m t h'
+
+
 end QM.Exec
